@@ -5,7 +5,8 @@ Property theorems only (helpers are in `Gotlcp.Lemmas.Flights`).  The model is `
 with its code-dependent parameters taken from the regenerated facts (`Oracle.C19.paramsOfFacts`, the very
 parameters the correspondence oracle runs with); the spec is `Gotlcp.Spec.Flights`.
 
-What is PROOF (all inputs): `C19_backoff*` (any number of expiries), `C19_no_data_before_finished` and
+What is PROOF (all inputs): `C19_backoff*` (any number of expiries), `C19_sched_*`, `C19_budget_bounds` and
+`C19_deadline_is_budget` (the time allowed, for every number of expiries), `C19_no_data_before_finished` and
 `C19_agree_if_both_complete` (one endpoint fed with ANY sequence of datagrams — arbitrary records, epochs,
 sequence numbers, order, duplicates — and deadline expiries at ANY times).
 What is EVALUATION of the executable model by the kernel (`decide`, no `native_decide`):
@@ -260,6 +261,96 @@ example :
 example :
     let n := run (paramsOfFacts 1 4 false false) [⟨true, 3, .drop⟩] true 24
     success n = true ∧ n.c.hsAt = some 1 ∧ n.c.timeouts = 1 := by decide
+
+/-! ### the time allowed by the schedule
+
+The statement's "within the time allowed by the retransmission schedule" is `budget init max k`, the sum
+of the first k timeouts; the spec that judges the real endpoints and the evaluated theorems below use it.
+These theorems say what that number is, for every k. -/
+
+/-- no timeout of the schedule exceeds the configured maximum -/
+theorem C19_sched_le_max (i m k : Nat) : sched i m k ≤ m := Nat.min_le_right _ _
+
+/-- the schedule never shrinks -/
+theorem C19_sched_mono (i m k : Nat) : sched i m k ≤ sched i m (k + 1) := by
+  have hp : i * 2 ^ (k + 1) = i * 2 ^ k * 2 := by rw [Nat.pow_succ, Nat.mul_assoc]
+  show min (i * 2 ^ k) m ≤ min (i * 2 ^ (k + 1)) m
+  rw [hp]; omega
+
+/-- once the doubling has reached the maximum the timeout stays there ("doubling up to the maximum") -/
+theorem C19_sched_saturates (i m k : Nat) (h : m ≤ i * 2 ^ k) (j : Nat) : sched i m (k + j) = m := by
+  have hle : i * 2 ^ k ≤ i * 2 ^ (k + j) :=
+    Nat.mul_le_mul_left i (Nat.pow_le_pow_right (by decide) (Nat.le_add_right k j))
+  show min (i * 2 ^ (k + j)) m = m
+  omega
+
+/-- before that point it is exactly the doubled initial timeout -/
+theorem C19_sched_doubles (i m k : Nat) (h : i * 2 ^ k ≤ m) : sched i m k = i * 2 ^ k := by
+  show min (i * 2 ^ k) m = i * 2 ^ k
+  omega
+
+/-- the time allowed for k faults is at most k maximal timeouts and less than `initial·2^k`, and (for a
+well-formed timer) at least k initial timeouts -/
+theorem C19_budget_bounds (i m k : Nat) :
+    budget i m k ≤ k * m ∧ budget i m k + i ≤ i * 2 ^ k ∧ (i ≤ m → k * i ≤ budget i m k) := by
+  induction k with
+  | zero => simp [budget]
+  | succ n ih =>
+    obtain ⟨h1, h2, h3⟩ := ih
+    have hs : sched i m n ≤ m := C19_sched_le_max i m n
+    have hs2 : sched i m n ≤ i * 2 ^ n := Nat.min_le_left _ _
+    have hp : i * 2 ^ (n + 1) = i * 2 ^ n * 2 := by rw [Nat.pow_succ, Nat.mul_assoc]
+    have hpos : i ≤ i * 2 ^ n := Nat.le_mul_of_pos_right i (Nat.pow_pos (by decide))
+    refine ⟨?_, ?_, ?_⟩
+    · simp only [budget, Nat.succ_mul]; omega
+    · simp only [budget]; rw [hp]; omega
+    · intro him
+      have hge : i ≤ sched i m n := by
+        show i ≤ min (i * 2 ^ n) m
+        omega
+      have := h3 him
+      simp only [budget, Nat.succ_mul]; omega
+
+/-- k expiries, each handled at the moment the armed deadline passes (`armed` is never `none` after a
+`reset`; the `none` arm leaves the timer alone) -/
+def expireAtDeadline : Nat → Timer → Timer
+  | 0, t => t
+  | k + 1, t =>
+    match (expireAtDeadline k t).armed with
+    | some d => (expireAtDeadline k t).backoff timerLaw d
+    | none => expireAtDeadline k t
+
+/-- **Deadlines are the budget.** A flight sent at `now0` and retransmitted at every expiry: after k
+expiries the timer is armed for `now0 + budget initial max (k+1)`, i.e. the (k+1)-th retransmission happens
+exactly when the first k+1 timeouts of the schedule have elapsed — for every k, by induction over the
+extracted statements of `reset`, `backoff` and `start`. -/
+theorem C19_deadline_is_budget (t : Timer) (h : t.initial ≤ t.max) (now0 k : Nat) :
+    (expireAtDeadline k (t.reset now0)).armed = some (now0 + budget t.initial t.max (k + 1)) ∧
+    (expireAtDeadline k (t.reset now0)).current = sched t.initial t.max k ∧
+    (expireAtDeadline k (t.reset now0)).max = t.max := by
+  have hl : timerLaw = ⟨2, true⟩ := by decide
+  induction k with
+  | zero =>
+    refine ⟨?_, ?_, rfl⟩
+    · simp only [expireAtDeadline, Timer.reset, Timer.start, budget, sched, Nat.pow_zero, Nat.mul_one,
+        Nat.zero_add]
+      rw [show Nat.min t.initial t.max = t.initial from Nat.min_eq_left h]
+    · simp only [expireAtDeadline, Timer.reset, Timer.start, sched, Nat.pow_zero, Nat.mul_one]
+      exact (Nat.min_eq_left h).symm
+  | succ n ih =>
+    obtain ⟨ha, hc, hm⟩ := ih
+    simp only [expireAtDeadline, ha]
+    refine ⟨?_, ?_, ?_⟩
+    · simp only [Timer.backoff, Timer.start, hl, hc, hm, sched]
+      rw [backoffValue_step, Nat.add_assoc]
+      rfl
+    · simp only [Timer.backoff, Timer.start, hl, hc, hm, sched]
+      exact backoffValue_step _ _ _
+    · simp only [Timer.backoff, Timer.start, hm]
+
+/-- non-vacuity: 1 s initial, 4 s maximum, sent at t = 10: retransmissions at 11, 13, 17, 21, 25 -/
+example : (List.range 5).map (fun k => (expireAtDeadline k ((Timer.new 1 4).reset 10)).armed)
+    = [some 11, some 13, some 17, some 21, some 25] := by decide
 
 /-! ### the back-off law of the SOURCE TEXT
 
